@@ -150,7 +150,8 @@ def explore_run(pid, run, tier, work, nproc, log):
     L = lower(run, work)
     res['lowering'] = {'cmd': L.cmd, 'ir_lines': L.lines, 'secs': round(L.secs, 2)}
     procs = start_native_builds(run, work, run.native) if run.native else {}
-    eng = symx.Engine(L.module, run.entry, max_faults=run.faults, max_preempt=run.preempt, max_path_steps=run.max_path_steps)
+    eng = symx.Engine(L.module, run.entry, max_faults=run.faults, max_preempt=run.preempt, max_path_steps=run.max_path_steps,
+                      single_threaded_libc=not run.mt, shared_points=run.shared_points)
     tot = symx.run(eng, nproc, run.budget_s)
     res['tot'] = tot
     log('  [%s] paths=%d steps=%d forks=%d queries=%d qtime=%.1fs wall=%.1fs violations=%d inconclusive=%d' % (
